@@ -78,6 +78,13 @@ qint64 UdpNet::write(QUdpSocket *s, const QByteArray &data, const QHostAddress &
     d.id = nextId++;
     d.src = b->addr;
     d.sport = b->port;
+    for (const auto &m : std::as_const(nat)) {
+        if (m.priv == b->addr && m.privPort == b->port) {
+            d.src = m.pub;
+            d.sport = m.pubPort;
+            break;
+        }
+    }
     d.dst = host;
     d.dport = port;
     d.data = data;
@@ -89,8 +96,21 @@ qint64 UdpNet::write(QUdpSocket *s, const QByteArray &data, const QHostAddress &
     return data.size();
 }
 
-bool UdpNet::deliver(const Datagram &d)
+bool UdpNet::deliver(const Datagram &d0)
 {
+    Datagram d = d0;
+    for (const auto &m : std::as_const(nat)) {
+        if (m.pub == d.dst && m.pubPort == d.dport) {
+            d.dst = m.priv;
+            d.dport = m.privPort;
+            break;
+        }
+        if (m.priv == d.dst && m.privPort == d.dport) {
+            // a private address cannot be reached from the outside
+            ++droppedPrivate;
+            return false;
+        }
+    }
     Bound *b = findAddr(d.dst, d.dport);
     if (!b) {
         ++droppedNoListener;
